@@ -25,8 +25,17 @@ F17Sig == HasArg("--reify-edges") /\ HasArg("--reify-attributes") /\
 \* F19: --check records the offending triples of the graph before --rearrange reorders the branches and before --make-variables
 \* renames the variables, so a second run numbers / names them differently (needs two offending triples for the order, one for the names)
 F19Sig == HasArg("--check") /\ ((HasArg("--rearrange") /\ T.max_errors >= 2) \/ (HasArg("--make-variables") /\ T.max_errors >= 1))
+\* F23: --check together with --reify-attributes on an inverted attribute: the reified edge keeps the inverted role inside the
+\* graph, --check reports it as written, and the second run reads it deinverted (only the error-N metadata differ)
+F23Sig == HasArg("--check") /\ HasArg("--reify-attributes") /\
+          \E gi \in DOMAIN T.in_graphs : LET g == T.in_graphs[gi]  vs == {g.tr[i][1] : i \in DOMAIN g.tr} IN
+             \E i \in DOMAIN g.tr : g.tr[i][2] # ConceptRole /\ g.tr[i][3] \notin vs /\ IsInverted(M, g.tr[i][2])
 \* input graphs are well-formed and survive the pipeline conventions (no over-inverted roles etc.): decided per graph
-InputOK == T.input_wellformed
+\* (a decoded edge that still carries an inverted role was written over-inverted, e.g. :consist-of-of under a model that does not
+\* define :consist-of: outside "well-formed", O12 - decided here on the decoded input graphs, whatever the generator intended)
+OverInverted(g) == LET vs == {g.tr[i][1] : i \in DOMAIN g.tr} IN
+                   \E i \in DOMAIN g.tr : g.tr[i][2] # ConceptRole /\ g.tr[i][3] \in vs /\ IsInverted(M, g.tr[i][2])
+InputOK == T.input_wellformed /\ \A gi \in DOMAIN T.in_graphs : ~OverInverted(T.in_graphs[gi])
 
 (* ---------------- kind = "cli" (C20) ---------------- *)
 CliV ==
@@ -43,6 +52,7 @@ CliV ==
             ELSE IF T.plan.idempotent /\ ~T.plan.triples /\ InputOK /\ T.ninputs = 1 /\ T.tool2.out # T.tool.out
                  THEN (IF F17Sig THEN <<"KNOWN", "F17 reify-edges + reify-attributes on an inverted attribute">>
                        ELSE IF F19Sig THEN <<"KNOWN", "F19 error-N metadata describe the graph before rearrange / make-variables">>
+                       ELSE IF F23Sig THEN <<"KNOWN", "F23 check + reify-attributes on an inverted attribute">>
                        ELSE <<"REJECT", "output-is-a-fixed-point">>)
             ELSE Acc
 
